@@ -830,9 +830,12 @@ func c04LenPad(c *Ctx, write, sum *ssa.Function) {
 		}
 		m, ok1 := constInt(rem.Y)
 		k, ok2 := constInt(cmp.Y)
-		if ok1 && ok2 && m == 64 && k == 56 && cmp.Op == token.NEQ {
-			// body appends a zero byte
+		if ok1 && ok2 && m == 64 && k == 56 && (cmp.Op == token.NEQ || cmp.Op == token.EQL) {
+			// body appends a zero byte (`for len%64 != 56 { … }` or `for { if len%64 == 56 { break }; … }`)
 			body := ifi.Block().Succs[0]
+			if cmp.Op == token.EQL {
+				body = ifi.Block().Succs[1]
+			}
 			for _, bi := range body.Instrs {
 				if call, ok := bi.(*ssa.Call); ok {
 					if b2, ok := call.Call.Value.(*ssa.Builtin); ok && b2.Name() == "append" {
